@@ -1292,6 +1292,14 @@ def fault_base_scenarios():
                                        {"conn": 1, "dir": "c2a", "seq": 0, "nth": 2, "drop": True},
                                        {"conn": 1, "dir": "a2c", "seq": 0, "nth": 1, "drop": True}],
                                "conns": [c9]}, ["c1", "a1"]))
+    # a writer that has nothing outstanding once its writes completed, while its segments and their ACKs are still
+    # travelling through slow queues: the moments at which the socket may be moved
+    c10 = conn(1, 1, 6000, 0, close="acceptor")
+    c10["cread"]["stop"] = True
+    t10 = topo(False)
+    t10["addrs"]["A1"]["out_bw"] = 100000
+    t10["net"] = {"lat": 20000, "cap": 0, "bw": 50000}
+    S.append(("S10-idle-writer", {"topo": t10, "acceptors": acc, "ctl": [], "conns": [c10]}, ["c1", "a1"]))
     return S
 
 
@@ -1352,7 +1360,7 @@ def fault_enum(ctx, owner):
     import random
     q = ctx.tier == "quick"
     rng = random.Random(ctx.seed)
-    whats = ["close", "cancel", "destroy"]
+    whats = ["close", "cancel", "destroy", "move"]
     budget = 14000 if q else 400000
     scen = [("tcp", n, p, objs) for (n, p, objs) in fault_base_scenarios()]
     scen.append(("udp", "S5-udp", udp_fault_base(rng), ["s1", "s2", "r1", "r2"]))
